@@ -1503,6 +1503,15 @@ func (rl *Shell) dumpVariables() {
 	if rl.Iterations.IsSet() {
 		for _, variable := range variables {
 			value := rl.Config.Vars[variable]
+
+			// Booleans are read back as on/off, not true/false.
+			if enabled, isBool := value.(bool); isBool {
+				value = "off"
+				if enabled {
+					value = "on"
+				}
+			}
+
 			fmt.Printf("set %s %v\n", variable, value)
 		}
 	} else {
